@@ -163,7 +163,7 @@ def gen(rng, knobs):
             "clients": [{"script": hostile, "slow": flood or rng.random() < 0.2,
                          "origin": rng.choice(["", "", "https://client.example", "http://bad.actor", "HTTP://BAD.ACTOR"])},
                         {"script": good, "slow": rng.random() < 0.2}],
-            "sched": {"client": rng.choice([0.5, 1.0, 3.0]), "sql": rng.choice([0.3, 1.0, 3.0]),
+            "sched": {**histgen.stall_knob(rng), "client": rng.choice([0.5, 1.0, 3.0]), "sql": rng.choice([0.3, 1.0, 3.0]),
                       "exec": rng.choice([0.2, 1.0]), "writer": rng.choice([0.2, 1.0]),
                       "pool": rng.choice([0.3, 1.0]), "ready": rng.choice([1.0, 4.0, 8.0])}}
 
